@@ -179,7 +179,11 @@ def main():
     per_round = max(1, a.jobs) * a.shard
     nshards = max(1, a.jobs) * max(1, (len(goals) + per_round - 1) // per_round)   # whole rounds of parallel coqc
     nshards = max(1, min(nshards, len(goals)))
-    shards = [goals[i::nshards] for i in range(nshards)]
+    # the four goals of a case come in a fixed order (the reverse-latitude goals are the expensive ones):
+    # rotate the assignment so that every file gets the same mix
+    shards = [[] for _ in range(nshards)]
+    for i, g in enumerate(goals):
+        shards[(i + i // nshards) % nshards].append(g)
     bad_total, slow, notes = 0, 0.0, []
     with ThreadPoolExecutor(max_workers=max(1, a.jobs)) as ex:
         for idx, bad, dt, note in ex.map(run_shard, [(i, s, d, a.timeout) for i, s in enumerate(shards) if s]):
